@@ -39,9 +39,9 @@ Id == Tr.ident
 OK == [v |-> "ok", at |-> 0, info |-> "", alias |-> FALSE, topimg |-> FALSE, n |-> 0, ctx |-> ""]
 \* ctx: in which situation the event happened (part of the finding's signature)
 CtxOf(e) ==
-  IF e.op \in {"redraw", "same", "bad"}
+  IF e.op \in {"redraw", "same", "bad", "lost"}
     THEN IF TopLeaf(e.lay) THEN (IF cv # {} THEN "non-composite-after-images" ELSE "non-composite")
-         ELSE IF e.op = "bad" THEN "failing-draw" ELSE "composite"
+         ELSE IF e.op = "bad" THEN "failing-draw" ELSE IF e.op = "lost" THEN "dropped-frame" ELSE "composite"
     ELSE IF e.op = "climg" THEN (IF e.now THEN "clear_images-now" ELSE "clear_images") ELSE e.op
 V(v, info, n) == [v |-> v, at |-> l + 1, info |-> info, alias |-> FALSE, topimg |-> FALSE, n |-> n,
                   ctx |-> CtxOf(Ev[l + 1])]
@@ -88,6 +88,9 @@ NoDisc == [g |-> {}, m |-> {}]
 
 RedrawCore(e, free0, T1, P, implied, shown, fullT) ==
   LET bad == e.op = "bad"
+      \* "lost": draw_screen while a terminal resize is pending - urwid drops the frame (nothing is
+      \* painted) but the screen's bookkeeping for the canvas (deletions included) has run
+      lost == e.op = "lost"
       samecanvas == e.op = "same"
       wd == e.wd
       wf == WF(wd, e.lay, Tr.cols, Tr.rows) /\ WidgetsOf(e.lay) \subseteq {w \in DOMAIN wd : wd[w].alive}
@@ -96,7 +99,7 @@ RedrawCore(e, free0, T1, P, implied, shown, fullT) ==
       gone == cv \ d.cviews
       cv1 == ResetGen(d.cviews)
       expexc == IF bad THEN "ValueError" ELSE ""
-      judged == ~bad /\ ~taint
+      judged == ~bad /\ ~lost /\ ~taint
       wrongz == {x \in shown \ disc.g : x.proto = "kitty" /\ x.wid \in DOMAIN wd /\ x.z # wd[x.wid].z}
       newg == (shown \ implied) \ disc.g
       newm == (implied \ shown) \ disc.m
@@ -109,6 +112,8 @@ RedrawCore(e, free0, T1, P, implied, shown, fullT) ==
             ELSE IF T1.scrolls > 0 THEN V("terminal-error", "the screen scrolled", 0)
             ELSE IF ~Bracketed(e.toks) \/ T1.sync # 0 THEN V("sync-bracket", "", Len(e.toks))
             ELSE IF ~DeletesFirst(e.toks, Gfx) THEN V("delete-after-content", "", 0)
+            ELSE IF lost /\ \E i \in DOMAIN e.toks : IsTransmit(e.toks[i], Gfx)
+                   THEN V("bad-layout", "the frame was expected to be dropped by urwid but was painted", 0)
             ELSE IF ~Supported(Id) /\ ~NoGraphics(e.toks) THEN V("graphics-unsupported", "", 0)
             \* (the cross-check validates geometry and image lines; which z-index a widget draws on
             \* is judged by the next clause)
@@ -244,7 +249,7 @@ Init ==
 
 StepOf(e) ==
   LET free0 == free \cup Released(e.wd) IN
-    CASE e.op \in {"redraw", "same", "bad"} -> RedrawStep(e, free0)
+    CASE e.op \in {"redraw", "same", "bad", "lost"} -> RedrawStep(e, free0)
       [] e.op \in {"start", "stop", "clear"} -> ClearStep(e, free0)
       [] e.op = "climg" -> DirectClearStep(e, free0)
       [] OTHER -> WidgetStep(e, free0)
